@@ -483,6 +483,20 @@ func (a *Analyzer) onShuttingDown(n *nodeState, r *ev.Rec) {
 	}
 	if r.Reason == "raft: node removed" {
 		a.stat("self-shutdowns-on-removal")
+		// C17: a node learns of one removal once. A node that is started
+		// again (because it is being added again) and shuts itself down for
+		// the removal it had already obeyed is in a restart loop: it is not
+		// brought up to date however long the cluster stays healthy
+		if n.hasSt && n.latest != nil {
+			if n.removedFor == nil {
+				n.removedFor = map[uint64]int{}
+			}
+			if inc, seen := n.removedFor[n.latest.Index]; seen && inc != n.inc {
+				a.find("C17", "shuts-down-again-for-a-removal-already-obeyed", "", r.Q, "%s (incarnation %d) shuts itself down as removed by configuration %s, for which incarnation %d had already shut down", n.key, n.inc, cfgString(n.latest), inc)
+			} else if !seen {
+				n.removedFor[n.latest.Index] = n.inc
+			}
+		}
 		// C11: only after a configuration without the node is committed
 		// its removal is committed: two consecutive committed configurations, the
 		// first with the node, the second without it
